@@ -32,6 +32,9 @@ pub fn run_child<F: FnOnce() -> i32>(f: F, timeout: Duration) -> Outcome {
             libc::setpgid(0, 0);
             let lim = libc::rlimit { rlim_cur: 0, rlim_max: 0 };
             libc::setrlimit(libc::RLIMIT_CORE, &lim);
+            // a probed library that asks for absurd amounts of memory must fail in the child, not take the machine down
+            let mem = libc::rlimit { rlim_cur: 4 << 30, rlim_max: 4 << 30 };
+            libc::setrlimit(libc::RLIMIT_AS, &mem);
             let r = std::panic::catch_unwind(std::panic::AssertUnwindSafe(f));
             let code = match r {
                 Ok(c) => c,
